@@ -125,6 +125,12 @@ def forms(r, D):
                 vals += [1.0, v - 1.0]
             else:
                 rows.append(i), cols.append(j), vals.append(v)
+        # ... and a cell that is zero stored as +3 and -3
+        zr, zc = np.nonzero(D == 0)
+        for i, j in list(zip(zr, zc))[:2]:
+            rows += [i, i]
+            cols += [j, j]
+            vals += [3.0, -3.0]
         coo = sp.coo_matrix((vals, (rows, cols)), shape=D.shape)
         # build the compressed arrays by hand: scipy's own conversion would
         # merge the duplicates
